@@ -47,6 +47,8 @@ type Exec struct {
 	assumes   []*Term
 	obls      []*Obligation
 	dry       int
+	sweep     int
+	sweepFn   *ssa.Function
 	notes     map[string]int
 	root      *ssa.Function
 	rootName  string
@@ -96,6 +98,10 @@ func (ex *Exec) assume(pc, fact *Term) {
 
 func (ex *Exec) oblige(kind, detail string, pos token.Pos, pc, goal *Term, clause string) {
 	if ex.dry > 0 {
+		return
+	}
+	if ex.sweep > 0 && kind != "select-quit" {
+		// goroutine-body sweep: only the shutdown discipline is checked there
 		return
 	}
 	if pc == False || goal == True {
@@ -225,6 +231,7 @@ type Frame struct {
 	rpoIdx map[*ssa.BasicBlock]int
 	inc    map[*ssa.BasicBlock][]edge
 	isRoot bool
+	st     *State // state at the current instruction (for plain channel operations)
 	ifConcrete map[*ssa.BasicBlock]bool
 	// ghost: names of parameters/results for spec evaluation
 	paramVals []Value
@@ -698,6 +705,9 @@ func (fr *Frame) execBlock(b *ssa.BasicBlock, pc *Term, st *State, addEdge func(
 	var points []*PointSpec
 	if fr.isRoot {
 		points = ex.ctx.pointSpecs(ex.ctx.contractFor(fr.fn))
+	} else if fr.fn.Parent() == ex.root && ex.root != nil {
+		// a function literal of the verified function: its lines belong to it
+		points = ex.ctx.pointSpecs(ex.ctx.contractFor(ex.root))
 	}
 	firedHere := map[int]bool{}
 	for _, ins := range b.Instrs {
